@@ -26,3 +26,34 @@ func VfC13Rotate() {
 		vf.Reach("ok")
 	}
 }
+
+// VfC13DataBlock: GetDataBlock on an arbitrary buffer of 0..N bytes: returns a
+// block inside the buffer or an error, never panics; a block written by
+// PutDataBlock is read back exactly.
+func VfC13DataBlock() {
+	N := vf.Param("DN")
+	n := vf.Int()
+	vf.Assume(n >= 0 && n <= N)
+	data := vf.Bytes(n)
+	used, block, err := GetDataBlock(data)
+	if err != nil {
+		vf.Assert(used == 0 && block == nil, "datablock-error-with-result")
+		vf.Reach("db-error")
+	} else {
+		vf.Assert(used >= 1 && used <= n && len(block) <= used-1, "datablock-outside-buffer")
+		vf.Assert(len(block) == 0 || vf.SameObject(block, data), "datablock-not-in-buffer")
+		vf.Reach("db-ok")
+	}
+	// round trip
+	m := vf.Int()
+	vf.Assume(m >= 0 && m <= 300)
+	src := vf.Bytes(m)
+	dst := make([]byte, 310)
+	w, err := PutDataBlock(dst, src)
+	vf.Assert(err == nil && w >= m+1 && w <= m+2, "put-datablock-failed")
+	r, got, err := GetDataBlock(dst[:w])
+	vf.Assert(err == nil && r == w && len(got) == m, "datablock-round-trip-size")
+	i := vf.Int()
+	vf.Assume(i >= 0 && i < m)
+	vf.Assert(got[i] == src[i], "datablock-round-trip-bytes")
+}
